@@ -15,6 +15,8 @@ markers and checked against the tree with rules taken from the statement (see ch
 import re
 import traceback
 
+import os
+
 from hypothesis import strategies as st
 
 import glom
@@ -23,6 +25,7 @@ from glom import (T, S, Val, Spec, Auto, Coalesce, Pipe, Call, Invoke, Check, Ma
                   GlomError)
 from glom.core import bbrepr
 
+from .. import fuzzrun
 from ..runner import Sub, Mismatch, HarnessBug
 
 PROPERTY = 'C05'
@@ -522,4 +525,5 @@ def check(recipe, ctx):
 SUBS = [
     Sub('trace', check, gen=gen, quick=3000, thorough=10000,
         floors={'branch-point': 0.1, 'recovered-branch': 0.1, 'depth-3': 0.05}),
+    fuzzrun.fuzz_sub('fuzz-trace', 'hyp:c05:trace', runs=30000, campaigns=4, replay_sub='trace'),
 ]
